@@ -224,4 +224,19 @@ theorem scan0_spec (u : Z) (hu : u.WF) (start : Nat) :
 example : mpz_scan0 ⟨false, [B - 1, 7]⟩ 3 = 67 ∧ mpz_scan0 ⟨true, [0, 6]⟩ 65 = 66 ∧ mpz_scan0 ⟨true, [0, 6]⟩ 67 = 2 ^ 64 - 1 ∧
     mpz_scan0 ⟨true, [0, 6]⟩ 5 = 5 ∧ mpz_scan0 ⟨false, [B - 1, 7]⟩ 500 = 500 := by decide
 
+/-! ## mpz_hamdist -/
+
+/-- mpz_hamdist: the number of differing bit positions of the two infinite two's-complement expansions when
+    the signs agree (the xor is then non-negative), the largest mp_bitcnt_t when they differ (infinitely many
+    positions differ).  Any lengths, any number of low zero limbs on either side. -/
+theorem hamdist_spec (u v : Z) (hu : u.WF) (hv : v.WF) :
+    mpz_hamdist u v = if (u.toInt < 0 ↔ v.toInt < 0) then (Nat.digits 2 (Int.xor u.toInt v.toInt).toNat).sum
+      else BITCNT_MAX := by
+  rw [mpz_hamdist_eq u v hu hv, ← lxor_eq, ← popcount_eq_digits]
+  unfold specHamdist
+  by_cases h1 : u.toInt < 0 <;> by_cases h2 : v.toInt < 0 <;> simp [h1, h2]
+-- -(B^2) vs -(3B): |a|-1 = [B-1,B-1], |b|-1 = [B-1,2]: 63 differing bits; opposite signs: maximum
+example : mpz_hamdist ⟨true, [0, 0, 1]⟩ ⟨true, [0, 3]⟩ = 63 ∧ mpz_hamdist ⟨true, [5]⟩ ⟨false, [5]⟩ = 2 ^ 64 - 1 ∧
+    mpz_hamdist ⟨false, [B - 1, 1]⟩ ⟨false, [0, 3, 1]⟩ = 66 := by decide
+
 end Mpir.Bits
